@@ -2,7 +2,7 @@
 import math, copy, json, warnings
 import numpy as np
 from harness import common, gen, api, adapter
-from harness.common import fhex, flist, fv3, cbool, ftable2
+from harness.common import fhex, flist, fv3, fq4, cbool, ftable2
 
 LEVEL = "proof"
 IMPORTS = ["From MuxV Require Import Base.Num Base.Vec3 Base.FInst Model.Helpers Model.HelpersF Model.Kernel Model.Residual Model.Integrate Model.SceneF Model.ErrPolicy."]
@@ -56,6 +56,16 @@ def numeric_cases(chk, MX, n):
         try:
             FM = sc.solve_forces(**api.ALL_FRAMES)
             converged = True
+            if rng.random() < 0.35:
+                # warm start: change every aircraft's state and solve from the previous circulation; everything below then
+                # refers to the scene as that path left it
+                for nm, ac_, st_, cs_ in acs:
+                    st2 = gen.gen_state(rng, None)
+                    if "position" in st_:
+                        st2["position"] = st_["position"]
+                    sc.set_aircraft_state(state=st2, aircraft=nm)
+                FM = sc.solve_forces(initial_guess="previous", **api.ALL_FRAMES)
+                chk.count("path=previous")
         except Exception as e:
             converged = False
             chk.count("solve_raised=" + type(e).__name__)
@@ -72,6 +82,17 @@ def numeric_cases(chk, MX, n):
         defs = scene_defs(sc, tag)
         N = sc._N
         info = dict(scene=sd, aircraft=acs, N=N, opts=adapter.opts_of(sc), converged=converged)
+        # 0. freestream + rotation at the control points and the trailing directions, from the aircraft's CURRENT state
+        for ap, sl in zip(sc._airplane_objects, sc._airplane_slices):
+            wind = np.array(sc._get_wind(ap.p_bar), dtype=float)
+            cg = np.array(ap.CG, dtype=float)
+            pts = "[" + "; ".join("(%s, %s, %s)" % (fv3(ap.PC_CG[i]), fv3(np.array(ap.P0_joint[i]) - cg), fv3(np.array(ap.P1_joint[i]) - cg))
+                                  for i in range(ap.N)) + "]"
+            exp_ = "[" + "; ".join("(%s, %s, %s)" % (fv3(sc._v_inf_and_rot[sl][i]), fv3(sc._u_trailing_0[sl][i]), fv3(sc._u_trailing_1[sl][i]))
+                                   for i in range(ap.N)) + "]"
+            cases.append(([], "chk_flow 0x1p-36 %s %s %s %s %s %s %s %s" % (cbool(sc._constrain_vortex_sheet), cbool(sc._match_machup_pro), fq4(ap.q),
+                                                                            fv3(ap.v), fv3(wind), fv3(ap.w), pts, exp_)))
+            descr.append(dict(info, what="flow(v_inf+rot, trailing directions)", aircraft_name=ap.name, constrain=bool(sc._constrain_vortex_sheet)))
         # 1. influence matrix
         V = np.array(sc._V_ji, dtype=float)
         rowscale = [float(np.max(np.abs(V[i]))) for i in range(N)]
@@ -168,10 +189,11 @@ def policy_cases(chk, MX):
         sc = gen.build_scene(MX, sd, [("a", ac, st, {})])
         sc.set_err_state(not_converged=nc)
         orig = sopt.fsolve
+        forced_ier = rng.choice([2, 3, 4, 5])          # every value other than 1 is a failure of scipy.optimize.fsolve
         if solver == "scipy_fsolve" and fail:
             def bad_fsolve(func, x0, full_output=True, **kw):
                 x, info, ier, mesg = orig(func, x0, full_output=True, maxfev=2)
-                return x, info, 5, "forced failure"
+                return x, info, forced_ier, "forced failure"
             S.sopt.fsolve = bad_fsolve
         import io, contextlib
         try:
@@ -193,7 +215,7 @@ def policy_cases(chk, MX):
         else:
             exp = "false"
         cases.append(exp)
-        d = dict(what="policy", solver=solver, initial_guess=guess, not_converged=nc, forced_failure=fail, verbose=verbose, outcome=out)
+        d = dict(what="policy", solver=solver, initial_guess=guess, not_converged=nc, forced_failure=fail, forced_ier=forced_ier, verbose=verbose, outcome=out)
         descr.append(d)
         chk.count("policy=%s/%s/%s" % (solver, nc, "fail" if fail else "ok"))
         chk.case(dict(d), nontrivial=fail)
@@ -282,7 +304,14 @@ def run(chk):
             chk.violation("solution:not-a-root:%s" % "".join("1" if v else "0" for v in d["opts"].values()),
                           dict(kind="returned-circulation", scene=d["scene"], aircraft=d["aircraft"], gamma=d["gamma"], bound=d["bound"],
                                note="solve_forces returned normally but the circulation does not satisfy the lifting-line equation of the model"))
-    rest = [k for k in failing if descr[k].get("what") != "returned-circulation-solves-model-equation"]
+        elif str(d.get("what", "")).startswith("flow"):
+            # concrete input: for this scene and state the velocities / trailing directions the equations are evaluated with are not
+            # those of the aircraft's current state (wrong frame, stale cache, ...), so the returned circulation solves another system
+            chk.violation("flow:%s" % ("constrained" if d.get("constrain") else "free"),
+                          dict(kind="flow", scene=d["scene"], aircraft=d["aircraft"], aircraft_name=d.get("aircraft_name"), opts=d["opts"],
+                               note="freestream+rotation velocities or trailing-vortex directions of the live scene differ from the documented ones "
+                                    "for the current aircraft state"))
+    rest = [k for k in failing if descr[k].get("what") != "returned-circulation-solves-model-equation" and not str(descr[k].get("what", "")).startswith("flow")]
     if rest and len(chk.violations) == nv0 and not chk.known_hits:
         d = descr[rest[0]]
         chk.fail_obligation("correspondence:Model/Residual.v:" + str(d.get("what")),
